@@ -127,7 +127,14 @@ def impl_init():
         if "spec" in c:
             from pyp0f.net.packet import parse_packet
             from harness import implutil as U
-            ps = TCPPacketSignature.from_packet(parse_packet(U.scapy_from_spec(c["spec"])), c["syn_mss"])
+            from harness.props import c16
+            sp = c["spec"]
+            if c16.simple_opts(sp.get("opts", "")) and not sp.get("ipopts") and (sp.get("win", 0) + c["syn_mss"]) % 3 == 0:
+                # the caller's ONE Scapy object, parsed before with another window, then updated in place: the multiplier follows the window it has now
+                obj = U.scapy_reused_window(sp, parse_packet)
+            else:
+                obj = U.scapy_from_spec(sp)
+            ps = TCPPacketSignature.from_packet(parse_packet(obj), c["syn_mss"])
             wm = ps.window_multiplier
             return [wm.value, bool(wm.is_mtu)]
         ps = TCPPacketSignature(ip_version=p["ver"], ip_options_length=p["olen"], ttl=p["ttl"], window_size=p["win"],
